@@ -156,6 +156,13 @@ fn explore(ctx: &mut Ctx) {
         }
     }
     ctx.exhaustive_part("lead-byte sweep: first / last scalar of each of the 51 UTF-8 lead bytes x 8 short contexts x all front/back histories");
+    for s in gen::special_char_strings() {
+        let k = s.chars().count() as u32 + 1;
+        for hist in 0..(1u32 << k) {
+            eval(ctx, Case::Iter { s: s.clone(), hist, steps: k });
+        }
+    }
+    ctx.exhaustive_part("16 special chars (BOM, U+FFFD, Unicode white space ...) in 6 contexts x all front/back histories");
     // long strings: 33 and 64 chars, histories = all-front, all-back, alternating, 2:1, and 200 seeded ones (first 32 steps)
     let pool = ['a', 'é', '漢', '😀', '\u{7ff}', '\u{800}', '\u{fff}', '\u{ffff}', '\u{10000}', 'z'];
     let mut rng = kvh::Rng::new(ctx.args.seed, "c07-long");
